@@ -35,6 +35,13 @@ struct NodeSpec {
     /// the other Kademlia nodes are told about this node (so lookups discover it)
     #[serde(default)]
     learn: bool,
+    /// a real node that everybody else knows only under an address no transport can dial
+    #[serde(default)]
+    hidden: bool,
+    /// the node is told the local node's address and looks it up itself before the operations
+    /// start (so the local node is connected to it by an inbound connection)
+    #[serde(default)]
+    dials_local: bool,
 }
 fn never() -> String {
     "never".into()
@@ -163,7 +170,13 @@ async fn run_scenario(sc: Scenario, fault: String) -> Result<Outcome, String> {
         let idx = (i + 1) as u32;
         if let Some(role) = role_of(&ns.role) {
             let h = node::spawn(NodeCfg { net: sc.id, idx, role, max_outgoing: None }, log.clone()).await?;
-            slots.push(Slot { peer: h.peer, addrs: vec![h.addr.clone()], real: Some(h), fake: None });
+            let addrs = if ns.hidden {
+                let a: Multiaddr = "/ip4/127.0.0.1/udp/4001/quic-v1".parse().unwrap();
+                vec![a.with(Protocol::P2p(h.peer.into()))]
+            } else {
+                vec![h.addr.clone()]
+            };
+            slots.push(Slot { peer: h.peer, addrs, real: Some(h), fake: None });
         } else {
             let (peer, addrs, f) = make_fake(&ns.role).await?;
             slots.push(Slot { peer, addrs, real: None, fake: Some(f) });
@@ -216,6 +229,25 @@ async fn run_scenario(sc: Scenario, fault: String) -> Result<Outcome, String> {
     for j in 1..slots.len() {
         if spec(j).known {
             send(&slots, 0, Ctl::AddKnown(slots[j].peer, slots[j].addrs.clone()));
+        }
+    }
+    // 3b. nodes that connect to the local node themselves
+    for j in 1..slots.len() {
+        if spec(j).dials_local && spec(j).role == "kad" {
+            send(&slots, j, Ctl::AddKnown(slots[0].peer, slots[0].addrs.clone()));
+            let (tx, rx) = oneshot::channel();
+            send(&slots, j, Ctl::Op(OpReq { kind: "find_node".into(), quorum: "one".into(), n: 1, key: vec![], value: vec![], peers: vec![], target: slots[0].peer }, tx));
+            if let Ok(Ok(q)) = tokio::time::timeout(Duration::from_secs(30), rx).await {
+                holder_ops.push((j as u64, q as u64));
+            }
+            // wait until the local node reports the connection
+            let pj = slots[j].peer.to_string();
+            let t = Instant::now();
+            while t.elapsed() < Duration::from_secs(20)
+                && !log.ev.lock().unwrap().iter().any(|e| e["k"] == "conn" && e["node"] == 0 && e["up"] == true && e["peer"] == pj.as_str())
+            {
+                tokio::time::sleep(Duration::from_millis(10)).await;
+            }
         }
     }
     let wait_term = |log: &Log, node: u64, q: u64| -> bool {
